@@ -330,16 +330,27 @@ pub fn check_projection(
 
 /// (a)/(b): two recording orders of the same set of statements.
 pub fn compare_orders(first: &Digest, other: &Digest) -> Vec<Finding> {
+    compare_digests("order-dependence", first, other)
+}
+
+/// The same recorded statements read at two cognitive-time coordinates with
+/// nothing about them written in between ("depends only on the set of eligible
+/// assertions, never on anything stored").
+pub fn compare_coordinates(now: &Digest, then: &Digest) -> Vec<Finding> {
+    compare_digests("read-coordinate-dependence", now, then)
+}
+
+fn compare_digests(law: &str, first: &Digest, other: &Digest) -> Vec<Finding> {
     let mut out = Vec::new();
     if first.status != other.status {
         out.push(finding(
-            "order-dependence|status",
+            &format!("{law}|status"),
             format!("status {} vs {}", first.status, other.status),
         ));
     }
     if first.s_groups != other.s_groups || first.o_groups != other.o_groups {
         out.push(finding(
-            "order-dependence|groups",
+            &format!("{law}|groups"),
             format!(
                 "independent groups {}/{} vs {}/{}",
                 first.s_groups, first.o_groups, other.s_groups, other.o_groups
@@ -352,7 +363,7 @@ pub fn compare_orders(first: &Digest, other: &Digest) -> Vec<Finding> {
         || first.excluded != other.excluded
     {
         out.push(finding(
-            "order-dependence|ids",
+            &format!("{law}|ids"),
             "supporting/opposing/uncertain/excluded sets differ".to_string(),
         ));
     }
@@ -360,7 +371,7 @@ pub fn compare_orders(first: &Digest, other: &Digest) -> Vec<Finding> {
         || (first.o_score - other.o_score).abs() > EPS_ORDER
     {
         out.push(finding(
-            "order-dependence|score",
+            &format!("{law}|score"),
             format!(
                 "scores {}/{} vs {}/{}",
                 first.s_score, first.o_score, other.s_score, other.o_score
